@@ -218,20 +218,42 @@ class Frozen:
         self.tmpl = tmpl
         kid = {k.get_id(): n for n, k in enumerate(ks)}
         self.triggers = [set() for _ in ks]
+        self.offsets = [dict() for _ in ks]       # (fname, pos) -> list of ground offsets c for arguments bv + c
         for t in walk([tmpl]):
             if z3.is_app(t) and t.num_args() > 0 and t.decl().kind() == z3.Z3_OP_UNINTERPRETED:
                 for pos, a in enumerate(t.children()):
                     if a.get_id() in kid:
                         self.triggers[kid[a.get_id()]].add((t.decl().name(), pos))
+                    elif z3.is_add(a):
+                        ch = a.children()
+                        bvs = [c for c in ch if c.get_id() in kid]
+                        rest = [c for c in ch if c.get_id() not in kid]
+                        if len(bvs) == 1 and not any(self._mentions(c, kid) for c in rest):
+                            off = rest[0] if len(rest) == 1 else z3.Sum(rest)
+                            self.offsets[kid[bvs[0].get_id()]].setdefault((t.decl().name(), pos), []).append(off)
 
-    def candidates(self, var, occ, all_terms):
+    @staticmethod
+    def _mentions(t, kid):
+        for x in walk([t]):
+            if x.get_id() in kid:
+                return True
+        return False
+
+    def candidates(self, var, occ, all_terms, forced=()):
         trg = self.triggers[var]
-        if not trg:
+        offs = self.offsets[var]
+        if not trg and not offs:
             return all_terms
-        out = {}
+        out = {t.get_id(): t for t in forced}
         for key in trg:
             for t in occ.get(key, ()):
                 out[t.get_id()] = t
+        for key, cs in offs.items():
+            # f(bv + c) in the clause and f(t) in the VC: instantiate bv := t - c
+            for t in occ.get(key, ())[:40]:
+                for c in cs:
+                    x = z3.simplify(t - c)
+                    out[x.get_id()] = x
         return list(out.values())
 
 
@@ -326,7 +348,7 @@ def collect(terms):
     return idx, apps, occ
 
 
-def build_hyps(engine, pc, univ, idx0, apps0, sums, path=None, goal=None, rounds=6, cap=1500):
+def build_hyps(engine, pc, univ, idx0, apps0, sums, path=None, goal=None, rounds=4, cap=1500):
     """pc + instances of the universal assumptions at every index term + ground axioms of the real functions"""
     base = list(pc)
     extra = []
@@ -341,6 +363,7 @@ def build_hyps(engine, pc, univ, idx0, apps0, sums, path=None, goal=None, rounds
     base += sum_lem
     inst = []
     done = set()
+    forced = list(getattr(path, 'hint_terms', {}).values()) if path is not None else []
     for rnd in range(rounds):
         idx, _apps, occ = collect(base + extra + inst)
         for k, v in idx0.items():
@@ -349,7 +372,7 @@ def build_hyps(engine, pc, univ, idx0, apps0, sums, path=None, goal=None, rounds
         progressed = False
         for u in univ:
             if len(u.ks) == 1:
-                for i in u.candidates(0, occ, terms):
+                for i in u.candidates(0, occ, terms, forced):
                     key = (id(u), i.get_id())
                     if key in done:
                         continue
